@@ -16,7 +16,6 @@ package tsi
 
 import (
 	"regexp"
-	"strings"
 
 	"github.com/openGemini/openGemini/lib/pool"
 	"github.com/openGemini/openGemini/lib/util"
@@ -113,10 +112,9 @@ func matchSeriesKeyTagFilter(tags influx.PointTags, tf *tagFilter, tagArray bool
 	matchKey := util.Bytes2str(tf.key)
 	matchValue := util.Bytes2str(tf.value)
 
-	// a pure-literal regexp has been rewritten into its unescaped literal (tagFilter.Init): it matches by
-	// containment and must not be compiled (the literal may hold regexp metacharacters)
-	matchRegexp := func(v string) bool { return strings.Contains(v, matchValue) }
-	if tf.isRegexp && !tf.valueIsLiteral {
+	// tf.value is the regular expression as written (tagFilter.Init does not rewrite it)
+	var matchRegexp func(v string) bool
+	if tf.isRegexp {
 		re, err := regexp.Compile(matchValue)
 		if err != nil {
 			return false
